@@ -168,8 +168,68 @@ var _ = reserr.ErrAccessDenied
 //@   safety[C15]
 
 //@ closure (*Subscription).loadAccess#1
-//@   requires s != nil && s.c != nil && predConnOK(s.c.(*wsConn))
+//@   requires s != nil && s.c != nil && predConnOK(s.c.(*wsConn)) && t != nil
 //@   assigns pkgstate(rescache), cachecontainers()
+//@   safety[C15]
+
+// Throttled access check: the slot is released exactly once per answer, also when the
+// subscription or the connection is gone by then.
+//@ closure (*Subscription).loadAccess#2
+//@   requires s != nil && s.c != nil && predConnOK(s.c.(*wsConn)) && t != nil
+//@   assumes rescache.predThrottleInv(t) && t.running > 0
+//@   ensures[C19] callcount("Done") == old(callcount("Done")) + 1
+//@   ensures[C07] callcount("Enqueue") == old(callcount("Enqueue")) + 1
+//@   safety[C15]
+//@ closure (*Subscription).loadAccess#4
+//@   requires s != nil && s.c != nil && predConnOK(s.c.(*wsConn))
+//@   ensures[C07] callcount("Enqueue") == old(callcount("Enqueue")) + 1
+//@   safety[C15]
+
+// The verdict is stored only if it is an actual result or a plain denial (other errors are
+// not cached), the in-flight flag is cleared, and every waiting callback is invoked exactly once.
+//@ closure (*Subscription).loadAccess#3
+//@   requires s != nil && access != nil && (access.Error != nil || access.AccessResult != nil)
+//@   ensures[C07] old(s.state) != stateDisposed ==> invoked() == old(invoked()) + old(len(s.accessCallbacks))
+//@   ensures[C07] old(s.state) == stateDisposed ==> invoked() == old(invoked())
+//@   safety[C15]
+//@   loop 1 invariant invoked() == old(invoked()) + rangeidx1 && len(cbs) == old(len(s.accessCallbacks))
+//@   loop 1 invariant[C04] rangeidx1 == 0 ==> s.accessCallbacks == nil && s.flags & flagAccessCalled == 0 &&
+//@       (access.Error == nil || access.Error.Code == "system.accessDenied" ==> s.access == access) &&
+//@       (!(access.Error == nil || access.Error.Code == "system.accessDenied") ==> s.access == old(s.access))
+//@ closure (*Subscription).loadAccess#5
+//@   requires s != nil && access != nil && (access.Error != nil || access.AccessResult != nil)
+//@   ensures[C07] old(s.state) != stateDisposed ==> invoked() == old(invoked()) + old(len(s.accessCallbacks))
+//@   ensures[C07] old(s.state) == stateDisposed ==> invoked() == old(invoked())
+//@   safety[C15]
+//@   loop 1 invariant invoked() == old(invoked()) + rangeidx1 && len(cbs) == old(len(s.accessCallbacks))
+//@   loop 1 invariant[C04] rangeidx1 == 0 ==> s.accessCallbacks == nil && s.flags & flagAccessCalled == 0 &&
+//@       (access.Error == nil || access.Error.Code == "system.accessDenied" ==> s.access == access) &&
+//@       (!(access.Error == nil || access.Error.Code == "system.accessDenied") ==> s.access == old(s.access))
+
+// --- late answers and disposal (C11) ---
+
+//@ func (*Subscription).setResource
+//@   trusted
+//@   requires s != nil
+//@ func (*Subscription).doneLoading
+//@   trusted
+//@   requires s != nil
+
+// Loaded: if the connection refuses the work (it is disposing), a successfully loaded resource
+// is given back to the cache at once, exactly once; an error needs no release.
+//@ func (*Subscription).Loaded
+//@   requires s != nil && s.c != nil && predConnOK(s.c.(*wsConn))
+//@   requires err == nil ==> resourceSub != nil && resourceSub.e != nil && resourceSub.e.cache != nil
+//@   ensures[C11] old(s.c.(*wsConn).disposing) && err == nil ==> callcount("Unsubscribe") == old(callcount("Unsubscribe")) + 1
+//@   ensures[C11] old(s.c.(*wsConn).disposing) && err != nil ==> callcount("Unsubscribe") == old(callcount("Unsubscribe"))
+//@   ensures[C11] !old(s.c.(*wsConn).disposing) ==> callcount("Unsubscribe") == old(callcount("Unsubscribe"))
+//@   safety[C15]
+// In the queued step a disposed subscription gives the resource back exactly once and keeps
+// nothing; a live one takes it over.
+//@ closure (*Subscription).Loaded#1
+//@   requires s != nil && s.c != nil && predConnOK(s.c.(*wsConn)) && (err == nil ==> resourceSub != nil && resourceSub.e != nil && resourceSub.e.cache != nil)
+//@   ensures[C11] err == nil && old(s.state) == stateDisposed ==> callcount("Unsubscribe") == old(callcount("Unsubscribe")) + 1 && s.resourceSub == old(s.resourceSub) && s.state == stateDisposed
+//@   ensures[C11] err == nil && old(s.state) != stateDisposed ==> callcount("Unsubscribe") == old(callcount("Unsubscribe"))
 //@   safety[C15]
 
 //@ func (*Subscription).CanGet
@@ -191,7 +251,8 @@ var _ = reserr.ErrAccessDenied
 //@   safety[C15]
 
 //@ func (*Subscription).collectRefs
-//@   requires s != nil && rcb != nil
+//@   trusted
+//@   requires s != nil
 
 //@ func (*Subscription).OnReady
 //@   requires s != nil
